@@ -6,7 +6,6 @@ import (
 	"io"
 	"net"
 	"net/http"
-	"regexp"
 	"strings"
 	"sync"
 	"time"
@@ -64,14 +63,79 @@ func (l *pipeListener) Accept() (net.Conn, error) {
 func (l *pipeListener) Close() error   { l.once.Do(func() { close(l.done) }); return nil }
 func (l *pipeListener) Addr() net.Addr { return &net.TCPAddr{IP: net.IPv4(127, 0, 0, 1), Port: 8080} }
 
+// The configured expressions (asterisk wildcards on the request path) ...
+var c19Passthrough = []string{"/static/*", "*.css"}
+var c19AlwaysForward = []string{"/forward/*"}
+
+// ... and the request targets: plain ones, ones matching an expression, and
+// near misses whose query string or inner segments look like a match.
+var c19Paths = []string{
+	"/api/items", "/api/items?f=site.css", "/api/items?next=/static/app.js", "/api/static/x", "/api/items.css/edit", "/api/items?to=/forward/login", "/api/forward/login", "/api/items?a=1&b=.css",
+	"/static/app.js", "/theme/site.css", "/static/app.js?v=3", "/theme/site.css?x=1",
+	"/forward/login", "/forward/login?u=a",
+	"/litefs/health",
+}
+var c19PathWeights = []int{12, 4, 4, 3, 3, 3, 3, 3, 3, 3, 2, 2, 5, 3, 4}
+
+// c19Glob matches an asterisk-only wildcard expression against the whole of s.
+func c19Glob(expr, s string) bool {
+	if expr == "" {
+		return s == ""
+	}
+	if expr[0] == '*' {
+		for i := 0; i <= len(s); i++ {
+			if c19Glob(expr[1:], s[i:]) {
+				return true
+			}
+		}
+		return false
+	}
+	return s != "" && s[0] == expr[0] && c19Glob(expr[1:], s[1:])
+}
+
+// c19Classify is the specification's view of a request target.
+func c19Classify(target string) string {
+	path := target
+	if i := strings.IndexByte(path, '?'); i >= 0 {
+		path = path[:i]
+	}
+	if path == "/litefs/health" {
+		return "health"
+	}
+	for _, e := range c19Passthrough {
+		if c19Glob(e, path) {
+			return "passthrough"
+		}
+	}
+	for _, e := range c19AlwaysForward {
+		if c19Glob(e, path) {
+			return "forward"
+		}
+	}
+	return "plain"
+}
+
 // c19proxy builds the real proxy in front of node n with the stub application behind it.
 func c19proxy(r *Run, n *Node, app *c19app, dbName string) (http.Handler, func()) {
 	ps := lhttp.NewProxyServer(n.Store)
 	ps.Target = "app-" + n.Name + ":8080"
 	ps.DBName = dbName
 	ps.Addr = ":0"
-	ps.Passthroughs = []*regexp.Regexp{regexp.MustCompile(`^/static/`), regexp.MustCompile(`\.css$`)}
-	ps.AlwaysForward = []*regexp.Regexp{regexp.MustCompile(`^/forward/`)}
+	// compiled from the user-facing expressions the way the configuration loader does
+	for _, e := range c19Passthrough {
+		re, err := lhttp.CompileMatch(e)
+		if err != nil {
+			r.Inconclusive("compile %q: %v", e, err)
+		}
+		ps.Passthroughs = append(ps.Passthroughs, re)
+	}
+	for _, e := range c19AlwaysForward {
+		re, err := lhttp.CompileMatch(e)
+		if err != nil {
+			r.Inconclusive("compile %q: %v", e, err)
+		}
+		ps.AlwaysForward = append(ps.AlwaysForward, re)
+	}
 	ps.PollTXIDInterval = time.Millisecond
 	ps.PollTXIDTimeout = 500 * time.Millisecond
 	ps.PrimaryRedirectTimeout = 300 * time.Millisecond
@@ -186,11 +250,10 @@ func runC19(r *Run) {
 			n, handler = rep, hr
 		}
 		method := []string{"GET", "GET", "HEAD", "POST", "PUT", "PATCH", "DELETE", "OPTIONS"}[t.Next(8)]
-		pathClass := []string{"plain", "passthrough", "forward", "health"}[t.Pick([]int{6, 2, 2, 1})]
-		path := map[string]string{"plain": "/api/items", "passthrough": "/static/app.js", "forward": "/forward/login", "health": "/litefs/health"}[pathClass]
-		if pathClass == "passthrough" && t.Chance(1, 2) {
-			path = "/theme/site.css"
-		}
+		// request target: a path and sometimes a query string; the class is
+		// decided by the harness's own glob matcher on the path alone
+		path := c19Paths[t.Pick(c19PathWeights)]
+		pathClass := c19Classify(path)
 		// no primary known: the replica loses its primary for this request
 		noPrimary := dynamic && onReplica && t.Chance(1, 4)
 		if noPrimary {
